@@ -448,3 +448,23 @@ def build_bottomup_predictor(mods, scene, cfg):
         preprocess_config=pre)
     p._initialize_inference_model()
     return p, stub
+
+
+def build_topdown_gt_predictor(mods, scene, cfg):
+    """TopDownPredictor with the centroid model left out (ground-truth centroids,
+    LabelsReader only).  cfg: dict(os_i, scale_i, ms_i, max_h, max_w, crop, batch, refinement)."""
+    torch, OmegaConf, predictors = mods
+    stub_i = make_stub(torch, "instance", scene, cfg["os_i"])
+    crop = [cfg["crop"], cfg["crop"]]
+    ci = base_cfg(OmegaConf, "centered_instance", cfg["os_i"], cfg["scale_i"], cfg["ms_i"], cfg["max_h"],
+                  cfg["max_w"], crop=crop)
+    pre = OmegaConf.create({"is_rgb": True, "crop_hw": crop, "max_width": None, "max_height": None,
+                            "anchor_ind": None})
+    p = predictors.TopDownPredictor(
+        centroid_config=None, confmap_config=ci, centroid_model=None, confmap_model=stub_i,
+        centroid_backbone_type=None, centered_instance_backbone_type="unet", skeletons=["skeleton"],
+        peak_threshold=0.2, integral_refinement=cfg.get("refinement"), integral_patch_size=5,
+        batch_size=cfg["batch"], max_instances=None, return_confmaps=False, device="cpu",
+        preprocess_config=pre, anchor_ind=None)
+    p._initialize_inference_model()
+    return p, stub_i
